@@ -307,6 +307,11 @@ func (e *Encoder) zeroInit(st *State, r string, t types.Type) {
 				f := u.Field(i)
 				l := &Loc{Comp: e.fieldComp(t, f.Name()), Idx: []string{r}, Type: f.Type(), Root: f.Type()}
 				e.writeRoot(st, l, e.sorts.zero(f.Type()))
+				if np := namedPath(f.Type()); np == "sync.Mutex" || np == "sync.RWMutex" {
+					wn, rn, _ := e.lockComps(l)
+					e.setComp(st, wn, store(e.comp(st, wn, arrSort(sBool)), r, "false"))
+					e.setComp(st, rn, store(e.comp(st, rn, arrSort(sInt)), r, "0"))
+				}
 			}
 		}
 		// ghost fields
